@@ -112,7 +112,7 @@ fn fence_closes(line: &str, m: char, min: usize) -> bool {
 }
 
 #[derive(Default, Debug)]
-struct RefStats { expansions: BTreeMap<String, u64>, max_depth: usize, fenced_include_lookalikes: u64, dotdot_includes: u64, padded_include_lines: u64, unclosed_fences: u64 }
+struct RefStats { expansions: BTreeMap<String, u64>, max_depth: usize, fenced_include_lookalikes: u64, dotdot_includes: u64, padded_include_lines: u64, unclosed_fences: u64, crlf_files: u64 }
 
 fn ref_expand(tree: &Tree, canon: &str, active: &mut Vec<String>, st: &mut RefStats) -> Result<String, RefErr> {
   if active.iter().any(|a| a == canon) { return Err(RefErr::Circular); }
@@ -154,6 +154,7 @@ fn ref_expand(tree: &Tree, canon: &str, active: &mut Vec<String>, st: &mut RefSt
     out.push_str(line);
   }
   if fence.is_some() { st.unclosed_fences += 1; }
+  if text.contains("\r\n") { st.crlf_files += 1; }
   active.pop();
   Ok(out)
 }
@@ -268,8 +269,11 @@ fn gen_lines(rng: &mut Rng, includes: &[String], filler: bool) -> String {
     let pos = if rng.chance(2, 3) { rng.usize(first_fence + 1) } else { rng.usize(lines.len() + 1) };
     lines.insert(pos, line);
   }
-  let mut text = lines.join("\n");
-  if !lines.is_empty() && rng.chance(3, 4) { text.push('\n'); }
+  // one file in eight has CRLF line ends (the carriage return of an include line belongs to the
+  // line's trailing whitespace; the reference splits at '\n' exactly as for LF files)
+  let eol = if rng.chance(1, 8) { "\r\n" } else { "\n" };
+  let mut text = lines.join(eol);
+  if !lines.is_empty() && rng.chance(3, 4) { text.push_str(eol); }
   text
 }
 
@@ -477,6 +481,7 @@ fn execute(sc: &Scenario, tag: &str, blackbox: Option<&str>) -> RunOut {
       if st.dotdot_includes > 0 { bump(&mut counters, "reach:include-through-dotdot", 1); }
       if st.padded_include_lines > 0 { bump(&mut counters, "reach:include-line-with-padding", 1); }
       if st.unclosed_fences > 0 { bump(&mut counters, "reach:unclosed-fence", 1); }
+      if st.crlf_files > 0 { bump(&mut counters, "reach:crlf-file-expanded", 1); }
       if st.expansions.len() >= 2 { bump(&mut counters, "reach:expansions-with-at-least-one-include", 1); }
     }
     match &exp {
@@ -602,7 +607,7 @@ fn check_cmd(args: &[String]) -> i32 {
   if thorough { wa.push("--thorough".into()); }
   let mut spec = CheckSpec {
     property: "C20".into(), world: "W4".into(), tier: tier.clone(), seed, level: "exploration".into(),
-    rule: format!("W4 include world: the real mech::read_mech_source_file over a directory tree built per run on tmpfs (private directory, one thread, removed afterwards) against a reference textual expander over the in-memory description of the same tree. Trees: 1-4 .mec files in up to 3 directories (root, child, grandchild, sibling), every ordered pair an include edge with probability 1/3 (self-loops 1/12, repeats), so chains, diamonds, repeated includes, self-includes and cycles of every length arise; relative spellings with `..` and `./`; include lines with leading/trailing spaces and tabs and inner padding; brace lines that are not includes; lines with several brace expressions (`{{1+1}} and {{b.mec}}`, `{{a.mec}}{{b.mec}}`: not stand-alone includes); include tokens embedded in longer lines; include lines before, after and inside fences (the reference decides from the text which they are); backtick and tilde fences of length 3-5 indented 0-3 spaces with and without info strings, include-looking lines inside fences, false closers (shorter, other marker, trailing text), unclosed fences, a four-space non-fence; files with and without a final newline. Faults as real file-system objects: missing targets, a directory named like the target, invalid UTF-8, dangling symlink, symlink alias of another file of the graph, symlink loop; and as history an editor actor that rewrites, re-links or removes files between up to three loads of the same root. {} A run is non-trivial if at least one load expanded text; distinct = digest over tree contents and load outcomes.", if thorough { "Thorough tier: runs 0..2047 walk all 2^9 edge subsets over three files crossed with four include-line/fence placements; the rest is seeded." } else { "" }),
+    rule: format!("W4 include world: the real mech::read_mech_source_file over a directory tree built per run on tmpfs (private directory, one thread, removed afterwards) against a reference textual expander over the in-memory description of the same tree. Trees: 1-4 .mec files in up to 3 directories (root, child, grandchild, sibling), every ordered pair an include edge with probability 1/3 (self-loops 1/12, repeats), so chains, diamonds, repeated includes, self-includes and cycles of every length arise; relative spellings with `..` and `./`; include lines with leading/trailing spaces and tabs and inner padding; brace lines that are not includes; lines with several brace expressions (`{{1+1}} and {{b.mec}}`, `{{a.mec}}{{b.mec}}`: not stand-alone includes); include tokens embedded in longer lines; include lines before, after and inside fences (the reference decides from the text which they are); backtick and tilde fences of length 3-5 indented 0-3 spaces with and without info strings, include-looking lines inside fences, false closers (shorter, other marker, trailing text), unclosed fences, a four-space non-fence; files with and without a final newline, one file in eight with CRLF line ends. Faults as real file-system objects: missing targets, a directory named like the target, invalid UTF-8, dangling symlink, symlink alias of another file of the graph, symlink loop; and as history an editor actor that rewrites, re-links or removes files between up to three loads of the same root. {} A run is non-trivial if at least one load expanded text; distinct = digest over tree contents and load outcomes.", if thorough { "Thorough tier: runs 0..2047 walk all 2^9 edge subsets over three files crossed with four include-line/fence placements; the rest is seeded." } else { "" }),
     worker_args: wa,
     runs: if thorough { 2048 + 20_000_000 } else { 1_500_000 },
     budget: Duration::from_secs(if thorough { 420 } else { 40 }),
@@ -617,7 +622,7 @@ fn check_cmd(args: &[String]) -> i32 {
       "when both a cycle and a missing/unreadable file are reachable and the reference meets one first, either error class is accepted (the property does not order them)".into(),
       "CRLF line endings are not generated (the property does not mention them)".into(),
     ],
-    expected_reach: vec!["reach:same-file-included-more-than-once".into(), "reach:include-depth-3-or-more".into(), "reach:include-looking-line-inside-fence".into(), "reach:include-through-dotdot".into(), "reach:include-line-with-padding".into(), "reach:unclosed-fence".into(), "reach:expansions-with-at-least-one-include".into(), "reach:expect-text".into(), "reach:expect-circular".into(), "reach:expect-include-failed".into(), "fault:missing-target".into(), "fault:directory-in-place-of-file".into(), "fault:invalid-utf8".into(), "fault:dangling-symlink".into(), "fault:symlink-alias".into(), "fault:symlink-loop".into(), "fault:editor-changed-tree-between-loads".into()],
+    expected_reach: vec!["reach:same-file-included-more-than-once".into(), "reach:include-depth-3-or-more".into(), "reach:include-looking-line-inside-fence".into(), "reach:include-through-dotdot".into(), "reach:include-line-with-padding".into(), "reach:unclosed-fence".into(), "reach:crlf-file-expanded".into(), "reach:expansions-with-at-least-one-include".into(), "reach:expect-text".into(), "reach:expect-circular".into(), "reach:expect-include-failed".into(), "fault:missing-target".into(), "fault:directory-in-place-of-file".into(), "fault:invalid-utf8".into(), "fault:dangling-symlink".into(), "fault:symlink-alias".into(), "fault:symlink-loop".into(), "fault:editor-changed-tree-between-loads".into()],
     exhaustive: false,
     extra: json!({}),
   };
